@@ -94,7 +94,7 @@ class Snippet:
         self.rewrites.append({"rule": rule, "pattern": note, "count": 1,
                               "samples": ["%s => %s" % (' '.join(old.split())[:80], ' '.join(new.split())[:80])]})
 
-    def erase_arms(self, rule, pred, stub='ext_opaque_arm()', match_ordinal=0, drop_guard=True):
+    def erase_arms(self, rule, pred, stub='ext_opaque_arm()', match_ordinal=0, drop_guard=True, pat_map=None):
         """R2: in the match_ordinal-th `match` of this fn, arms whose pattern satisfies
         pred(pattern_text) keep their pattern (minus guard) and get body `stub`."""
         self._need_unspliced()
@@ -123,6 +123,8 @@ class Snippet:
                     g = re.search(r'\bif\b', pm)
                     if g:
                         newpat = pat[:g.start()].rstrip() + ' '
+                if pat_map is not None:
+                    newpat = pat_map(newpat)
                 pieces.append(body[last:ps])
                 pieces.append(newpat)
                 pieces.append(body[pe:bs])
